@@ -12,7 +12,9 @@ RULE = ("values injected exactly ([NUMBER:x] / [PERCENT:x] atoms, money and unit
         "k+0.5*10^-N +- ulp, 99..9.995, |x| < 10^-N, 10^k +- 1 up to 1e22, negatives, random doubles} x decimal digits 0..9 x "
         "zero-fraction removal x rounding x 5 separator pairs x kinds number/percent/money (every currency's digits, symbol, "
         "placement)/unit; oracle = exact decimal expansion of the double rounded half-even (Python Decimal), grouped; "
-        "non-trivial = the value has a non-zero fraction or >= 4 integer digits; distinct = distinct (config, kind, value)")
+        "non-trivial = the value has a non-zero fraction or >= 4 integer digits; distinct = distinct (config, kind, value); user-defined units "
+        "registered with every combination of (digits in {unset,0,3}) x (rounding in {unset,on,off}) x (remove-zero in {unset,on,off}) "
+        "print by their own settings")
 ASSUMPTIONS = ["Rust's `{:.N}` / Display are correctly rounded / shortest (the model's soft-float versions are proved / validated against them on every run)",
                "decimal digits 0..9 as the property says (10..22 are exercised without oracle for panics only in C01)"]
 TRUSTED = ["atom lexer glue ([NUMBER:x] parses x with str::parse::<f64>)"]
@@ -158,6 +160,41 @@ def run(ctx, model_ok):
                              "ops": case_ops, "impl": l["out"], "spec": c["want"]})
         elif len(ctx.samples) < 10 and nontrivial and rng.random() < 0.02:
             ctx.sample({"cfg": c["cfg"][0], "text": c["text"], "printed": l["out"]})
+    # user-defined units carry their own digit count and flags (add_dynamic_type_item): every combination
+    items = []
+    idx = 1
+    for digs in (None, 0, 3):
+        for rnd in (None, True, False):
+            for rz in (None, True, False):
+                items.append({"op": "dtype_item", "name": "fmtfam", "index": idx, "format": "{value} zzf" + "abcdefghijklmnopqrstuvwxyz"[(idx - 1) // 5] + "vwxyz"[(idx - 1) % 5],
+                              "parse": ["{NUMBER:value} {TEXT:type:zzf" + "abcdefghijklmnopqrstuvwxyz"[(idx - 1) // 5] + "vwxyz"[(idx - 1) % 5] + "}"],
+                              "up": "{value} / 10", "down": "{value} * 10", "names": ["zzf" + "abcdefghijklmnopqrstuvwxyz"[(idx - 1) // 5] + "vwxyz"[(idx - 1) % 5]],
+                              **({} if digs is None else {"digits": digs}), **({} if rnd is None else {"rounding": rnd}),
+                              **({} if rz is None else {"remove_zero": rz}), "_flags": (digs, rnd, rz)})
+                idx += 1
+    uops = [{"op": "reset"}, {"op": "dtype_add", "name": "fmtfam"}] + [{k: v for k, v in it.items() if k != "_flags"} for it in items]
+    ucases = []
+    for it in items:
+        digs, rnd, rz = it["_flags"]
+        d_eff, rnd_eff, rz_eff = (2 if digs is None else digs), (True if rnd is None else rnd), (True if rz is None else rz)
+        for v in rng.sample(values(rng, d_eff), ctx.n(6, 30)):
+            if abs(v) >= 1e15 or "e" in repr(v).lower():
+                continue
+            word = it["names"][0]
+            ucases.append({"text": pyfloat_text(v).replace(".", ",") + " " + word, "v": v, "flags": it["_flags"],
+                           "want": spec_format(v, ",", ".", d_eff, rz_eff, rnd_eff) + " " + word})
+    ures = C.run_impl(uops + [{"op": "exec", "lang": "en", "text": c["text"]} for c in ucases] + [{"op": "reset"}])
+    for c, r in zip(ucases, ures[len(uops):]):
+        l = r.get("lines", [None])[0] if "lines" in r else None
+        ctx.seen(("user-unit", c["text"], str(c["flags"])), True)
+        ctx.count("kind:user-unit")
+        ok = (l or {}).get("ok") or {}
+        if "v" not in ok or O.f64(ok["v"]) != c["v"]:
+            ctx.count("literal-not-exact(skipped)")
+            continue
+        if l.get("out") != c["want"]:
+            ctx.oracle_fail({"class": "print:user-unit", "what": f"unit registered with (digits, rounding, remove-zero) = {c['flags']} printed {l.get('out')!r}, its settings give {c['want']!r}",
+                             "ops": uops + [{"op": "exec", "lang": "en", "text": c["text"]}, {"op": "reset"}], "impl": l.get("out"), "spec": c["want"]})
     if model_ok:
         # soft-float edge self-test + output correspondence
         ml, io = [], []
